@@ -292,7 +292,7 @@ def law_failures(ops, ans):
     n = len(ops)
     p = parse_rel(ans, n)
     if p is None:
-        return [("answer", f"unexpected answer {ans!r}")]
+        return [("answer", f"unexpected answer {ans!r}", tuple(range(n)))]
     M, hc, heq, after = p
     out = []
     vals = [atom_value(o) for o in ops]
@@ -304,54 +304,54 @@ def law_failures(ops, ans):
 
     for i in range(n):
         if after[i] != "same":
-            out.append(("mutation", f"operand {show(i)} changed by a comparison: {after[i]}"))
+            out.append(("mutation", f"operand {show(i)} changed by a comparison: {after[i]}", (i,)))
         for j in range(n):
             if "P" in M[i][j] or "?" in M[i][j]:
-                out.append(("panic", f"{show(i)} vs {show(j)}: codes {M[i][j]} (P = Go panic)"))
+                out.append(("panic", f"{show(i)} vs {show(j)}: codes {M[i][j]} (P = Go panic)", (i, j)))
     for i in range(n):
         # reflexivity
         if not nan[i] and M[i][i][EQ] != "t":
-            out.append(("eq-refl", f"{show(i)} == itself gives {M[i][i][EQ]}"))
+            out.append(("eq-refl", f"{show(i)} == itself gives {M[i][i][EQ]}", (i,)))
         for j in range(n):
             if i == j:
                 continue
             a, b = M[i][j], M[j][i]
             # == symmetric; == implies equal hash; == implies =~ ; === implies ==
             if i < j and a[EQ] != b[EQ]:
-                out.append(("eq-symm", f"{show(i)} == {show(j)} is {a[EQ]} but the converse is {b[EQ]}"))
+                out.append(("eq-symm", f"{show(i)} == {show(j)} is {a[EQ]} but the converse is {b[EQ]}", (i, j)))
             if a[EQ] == "t" and not heq[(i, j)] and not (nan[i] or nan[j]):
-                out.append(("eq-hash", f"{show(i)} == {show(j)} but their hashes differ (hash codes {hc})"))
+                out.append(("eq-hash", f"{show(i)} == {show(j)} but their hashes differ (hash codes {hc})", (i, j)))
             if a[SEQ] == "t" and a[EQ] != "t" and not (nan[i] or nan[j]):
-                out.append(("seq-eq", f"{show(i)} === {show(j)} but == gives {a[EQ]}"))
+                out.append(("seq-eq", f"{show(i)} === {show(j)} but == gives {a[EQ]}", (i, j)))
             if nan[i] or nan[j]:
                 continue
             ordered = num[i] and num[j] or kind_of(ops[i]) in ("s", "c") and kind_of(ops[j]) in ("s", "c")
             if not ordered:
                 continue
             if a[EQ] == "t" and a[LAX] != "t":
-                out.append(("eq-lax", f"{show(i)} == {show(j)} but =~ gives {a[LAX]}"))
+                out.append(("eq-lax", f"{show(i)} == {show(j)} but =~ gives {a[LAX]}", (i, j)))
             if i < j and a[LAX] != b[LAX]:
-                out.append(("lax-symm", f"{show(i)} =~ {show(j)} is {a[LAX]} but the converse is {b[LAX]}"))
+                out.append(("lax-symm", f"{show(i)} =~ {show(j)} is {a[LAX]} but the converse is {b[LAX]}", (i, j)))
             # the five ordering operators are defined on the same pairs, in both directions
             defd = [c in "<=>n" if k == CMP else c in "tf" for k, c in enumerate(a[:5])]
             if any(defd) and not all(defd):
-                out.append(("acceptance", f"{show(i)} vs {show(j)}: ordering operators partly defined: {a[:5]}"))
+                out.append(("acceptance", f"{show(i)} vs {show(j)}: ordering operators partly defined: {a[:5]}", (i, j)))
             if i < j and all(defd) != all(c in "<=>n" if k == CMP else c in "tf" for k, c in enumerate(b[:5])):
-                out.append(("acceptance-symm", f"{show(i)} vs {show(j)}: {a[:5]} but converse {b[:5]}"))
+                out.append(("acceptance-symm", f"{show(i)} vs {show(j)}: {a[:5]} but converse {b[:5]}", (i, j)))
             if not all(defd):
                 continue
             c = a[CMP]
             if c == "n":
-                out.append(("cmp-nil", f"{show(i)} <=> {show(j)} is nil for non-NaN operands"))
+                out.append(("cmp-nil", f"{show(i)} <=> {show(j)} is nil for non-NaN operands", (i, j)))
                 continue
             want = {LT: c == "<", LE: c in "<=", GT: c == ">", GE: c in ">=", LAX: c == "="}
             for k, w in want.items():
                 if a[k] in "tf" and (a[k] == "t") != w:
-                    out.append(("agree", f"{show(i)} <=> {show(j)} is '{c}' but {NAMES[k]} gives {a[k]}"))
+                    out.append(("agree", f"{show(i)} <=> {show(j)} is '{c}' but {NAMES[k]} gives {a[k]}", (i, j)))
             if b[CMP] in "<=>" and i < j:
                 conv = {"<": ">", ">": "<", "=": "="}[c]
                 if b[CMP] != conv:
-                    out.append(("converse", f"{show(i)} <=> {show(j)} is '{c}' but the converse is '{b[CMP]}'"))
+                    out.append(("converse", f"{show(i)} <=> {show(j)} is '{c}' but the converse is '{b[CMP]}'", (i, j)))
     # transitivity over triples
     if n == 3:
         import itertools
@@ -364,7 +364,7 @@ def law_failures(ops, ans):
                                   (EQ, EQ, EQ, "== ==")]:
                 if ab[x] == "t" and bc[y] == "t" and ac[z] == "f":
                     out.append(("trans", f"{show(i)} {NAMES[x]} {show(j)} and {show(j)} {NAMES[y]} {show(k)} "
-                                         f"but not {show(i)} {NAMES[z]} {show(k)}"))
+                                         f"but not {show(i)} {NAMES[z]} {show(k)}", (i, j, k)))
     return out
 
 
@@ -373,7 +373,7 @@ def oracle(line, ans):
     if f[1] == "rel":
         fails = law_failures(f[2:], ans)
         if fails:
-            return "; ".join(f"[{l}] {t}" for l, t in fails[:3])
+            return "; ".join(f"[{l}] {t}" for l, t, _ in fails[:3])
         return None
     if f[1] == "hashis":
         # model-free part: nothing (the byte recipe is the model's); `ok f` disagrees with the model's `ok t`
@@ -381,6 +381,357 @@ def oracle(line, ans):
     return None
 
 
+# ---------------------------------------------------------------- strings, chars, compound values
+
+STRS = [b"", b"a", b"b", b"ab", b"a\x00", "é".encode(), b"\xff", "�".encode(), b"z", "€".encode(),
+        "\U0001f600".encode(), b"A", b"aa", b"\xc3", b"~"]
+CHARS = [97, 98, 0, 233, 8364, 128512, 65533, 122, 65, 126, 127, 128, 2047, 2048, 65535, 65536, 1114111]
+
+
+def gen_text_group(rng, n):
+    out = []
+    for _ in range(n):
+        r = rng.random()
+        if r < 0.5:
+            out.append("s:" + rng.choice(STRS).hex())
+        elif r < 0.9:
+            out.append("c:%d" % rng.choice(CHARS))
+        elif r < 0.95:
+            out.append("y:" + rng.choice([b"a", b"b", b"ab", b""]).hex())
+        else:
+            out.append(rng.choice(["nil", "true", "false", "si:97", "f:3ff0000000000000"]))
+    # make equal representations likely: a one-char string next to its char
+    if rng.random() < 0.5 and n >= 2:
+        c = rng.choice(CHARS)
+        out[0] = "c:%d" % c
+        out[1] = "s:" + chr(c).encode("utf-8", "surrogatepass").hex()
+    return out
+
+
+KEY_ATOMS = ['1', '2', '-1', '0', '1.0', '2.5', '0.0', '-0.0', '1i8', '1u8', '1.0f32', '1.0f64', '1.0bf',
+             '1.00000000000000000000bf', '9007199254740993', '9007199254740992.0', '2**64', '"a"', '"b"', '""', '"ab"',
+             '`a`', '`b`', ':a', ':b', 'nil', 'true', 'false', '"\\xff"', '255u8', '1u16', '-1i64', '1.5f32']
+RANGE_ENDS = [('1', '5'), ('1', '6'), ('2', '5'), ('1.0', '5.0'), ('"a"', '"c"'), ('1', '5.0'), ('0.0', '5'), ('-0.0', '5')]
+
+
+def gen_src(rng, d=0):
+    """Elk source of a value; map/set keys are atoms (compound keys hash by identity: a known finding)"""
+    r = rng.random()
+    if d >= 2 or r < 0.35:
+        return rng.choice(KEY_ATOMS)
+    k = rng.choice(['list', 'tuple', 'map', 'rec', 'set', 'pair', 'crange', 'orange', 'lorange', 'rorange', 'ecrange',
+                    'eorange', 'bcrange', 'borange', 'date'])
+    n = rng.choice([0, 1, 2, 2, 3])
+    if k == 'list':
+        return '[' + ', '.join(gen_src(rng, d + 1) for _ in range(n)) + ']'
+    if k == 'tuple':
+        return '%[' + ', '.join(gen_src(rng, d + 1) for _ in range(n)) + ']'
+    if k == 'set':
+        return '^[' + ', '.join(rng.choice(KEY_ATOMS) for _ in range(n)) + ']'
+    if k == 'map':
+        return '{ ' + ', '.join(rng.choice(KEY_ATOMS) + ' => ' + gen_src(rng, d + 1) for _ in range(n)) + ' }' if n else '{}'
+    if k == 'rec':
+        return '%{ ' + ', '.join(rng.choice(KEY_ATOMS) + ' => ' + gen_src(rng, d + 1) for _ in range(n)) + ' }' if n else '%{}'
+    if k == 'pair':
+        return 'Pair(' + gen_src(rng, d + 1) + ', ' + gen_src(rng, d + 1) + ')'
+    if k == 'date':
+        return 'Date(%d, %d, %d)' % (rng.choice([2020, 2021, -5, 0, 4000000]), rng.choice([1, 2, 12]), rng.choice([1, 28, 31]))
+    a, b = rng.choice(RANGE_ENDS)
+    return {'crange': f'({a}...{b})', 'orange': f'({a}<.<{b})', 'lorange': f'({a}<..{b})', 'rorange': f'({a}..<{b})',
+            'ecrange': f'({a}...)', 'eorange': f'({a}<..)', 'bcrange': f'(...{b})', 'borange': f'(..<{b})'}[k]
+
+
+MINIMAL_SRC = {"list": "[]", "tuple": "%[]", "set": "^[]", "map": "{}", "rec": "%{}", "pair": "Pair(nil, nil)",
+               "crange": "(1...2)", "orange": "(1<.<2)", "lorange": "(1<..2)", "rorange": "(1..<2)", "ecrange": "(1...)",
+               "eorange": "(1<..)", "bcrange": "(...2)", "borange": "(..<2)", "date": "Date(1, 1, 1)"}
+
+
+def describe(srcs):
+    """structure of each Elk source as the implementation evaluates it (impl-only pre-pass)"""
+    ans = vlib.run_impl(["num\tdescribe\t" + s.encode().hex() for s in srcs])
+    return {s: a[3:] for s, a in zip(srcs, ans) if a.startswith("ok ")}
+
+
+def xop(src, structure):
+    return "x:" + src.encode().hex() + "|" + structure
+
+
+def gen_compound_lines(rng, n):
+    srcs = set()
+    while len(srcs) < max(8, n // 2):
+        srcs.add(gen_src(rng))
+    srcs = sorted(srcs) + sorted(MINIMAL_SRC.values())
+    desc = describe(srcs)
+    ok = sorted(desc.items())
+    by_head = {}
+    for it in ok:
+        by_head.setdefault(it[1].split(" ")[0].split(":")[0], []).append(it)
+    lines = []
+    for i in range(n):
+        a = rng.choice(ok)
+        r = rng.random()
+        if r < 0.35:
+            b = a
+        elif r < 0.75:
+            b = rng.choice(by_head[a[1].split(" ")[0].split(":")[0]])
+        else:
+            b = rng.choice(ok)
+        ops = [a, b]
+        if i % 2:
+            ops.append(rng.choice([a, b, rng.choice(ok)]))
+        lines.append("num\trel\t" + "\t".join(xop(*x) for x in ops))
+    return lines, len(srcs) - len(ok)
+
+
+# ---------------------------------------------------------------- minimiser
+
+def _int_candidates(v):
+    c = [0, 1, -1, 2 ** 53, 2 ** 53 + 1, -(2 ** 53) - 1, 2 ** 63, 2 ** 63 - 1, -(2 ** 63), 2 ** 64, 2 ** 64 - 1, 2 ** 24 + 1]
+    c += [v // 2, v - 1 if v > 0 else v + 1]
+    return sorted(set(c), key=abs)
+
+
+def shrink_candidates(op):
+    """simpler operands of the same kind, simplest first"""
+    if op.startswith("x:"):
+        head = kind_of(op)
+        src = MINIMAL_SRC.get(head)
+        if src is None:
+            return []
+        d = describe([src])
+        return [xop(src, d[src])] if src in d and xop(src, d[src]) != op else []
+    k = kind_of(op)
+    body = op.split(":", 1)[1] if ":" in op else ""
+    out = []
+    if k in INT_RANGES or k == "bi":
+        v = int(body)
+        for c in _int_candidates(v):
+            if abs(c) < abs(v):
+                if k == "bi" and -2 ** 63 <= c < 2 ** 63:
+                    continue
+                if k in INT_RANGES and not INT_RANGES[k][0] <= c <= INT_RANGES[k][1]:
+                    continue
+                out.append(f"{k}:{c}")
+    elif k in ("f", "f64"):
+        x = bits_f64(int(body, 16))
+        for c in [0.0, 1.0, 2.0 ** 53, 2.0 ** 63, 2.0 ** 64, float(int(x)) if math.isfinite(x) else 0.0]:
+            if f64_bits(c) != int(body, 16) and (not math.isfinite(x) or abs(c) <= abs(x)):
+                out.append(f"{k}:{f64_bits(c):016x}")
+    elif k == "f32":
+        x = bits_f32(int(body, 16))
+        for c in [0.0, 1.0, 2.0 ** 24, 2.0 ** 63]:
+            if f32_bits(c) != int(body, 16) and (not math.isfinite(x) or abs(c) <= abs(x)):
+                out.append(f"f32:{f32_bits(c):08x}")
+    elif k == "bf" and body.count(":") == 3:
+        prec, sign, m, e = body.split(":")
+        v = atom_value(op)
+        for c in [Fraction(0), Fraction(1), Fraction(2 ** 53), Fraction(2 ** 63)]:
+            if abs(c) < abs(v):
+                out.append(bf_atom(53, c))
+        if int(prec) != 53 and int(m).bit_length() <= 53:
+            out.append(f"bf:53:{sign}:{m}:{e}")
+    elif k == "s" and body:
+        out += ["s:", "s:61"]
+    elif k == "c" and body != "97":
+        out.append("c:97")
+    return [o for o in out if o != op]
+
+
+def first_failure(line, ans):
+    """(law, text, involved operand indices) of the first law failure on this line, or None"""
+    f = line.split("\t")
+    if f[1] != "rel":
+        return None
+    fails = law_failures(f[2:], ans)
+    return fails[0] if fails else None
+
+
+def minimise(line, still, involved=None, budget=40):
+    f = line.split("\t")
+    if f[1] != "rel":
+        return line
+    ops = f[2:]
+    mk = lambda o: "num\trel\t" + "\t".join(o)
+    # the operands the failure mentions
+    if involved is not None and len(set(involved)) < len(ops):
+        cand = [ops[i] for i in sorted(set(involved))]
+        if still(mk(cand)):
+            ops = cand
+    # fewer operands
+    changed = True
+    while changed and len(ops) > 1:
+        changed = False
+        for i in range(len(ops)):
+            cand = ops[:i] + ops[i + 1:]
+            if still(mk(cand)):
+                ops, changed = cand, True
+                break
+    # simpler operands: first every operand of one head kind at once (a value against its equal), then one by one
+    for k in sorted(set(kind_of(o) for o in ops)):
+        group = [o for o in ops if kind_of(o) == k]
+        if len(group) > 1:
+            for c in shrink_candidates(group[0]):
+                budget -= 1
+                cand = [c if kind_of(x) == k else x for x in ops]
+                if still(mk(cand)):
+                    ops = cand
+                    break
+    for i in range(len(ops)):
+        progress = True
+        while progress and budget > 0:
+            progress = False
+            for c in shrink_candidates(ops[i]):
+                budget -= 1
+                cand = ops[:i] + [c] + ops[i + 1:]
+                if still(mk(cand)):
+                    ops, progress = cand, True
+                    break
+                if budget <= 0:
+                    break
+    return mk(ops)
+
+
+def correspond(ctx, lines, label, max_report=12):
+    """vlib.correspond with three differences: a law failure that is a listed known finding does not break the
+    correspondence obligation; a model/implementation disagreement is always reported on its own; failures are
+    reported once per (law, kinds of the operands involved) signature."""
+    impl = vlib.run_impl(lines)
+    model = vlib.run_model(lines)
+    ok = True
+    reported = 0
+    res = []
+    seen = set()
+
+    def both(l2):
+        return vlib.run_impl([l2])[0], vlib.run_model([l2])[0]
+
+    for ln, a, b in zip(lines, impl, model):
+        res.append((ln, a, b))
+        ctx.case(keyfn(ln), sample={"line": ln, "impl": a, "model": b})
+        ctx.stat("answer:" + a.split(" ", 1)[0])
+        if b.startswith("bad-"):
+            raise RuntimeError(f"model rejected line {ln!r}: {b}")
+        ff = first_failure(ln, a)
+        if a == b and ff is None:
+            continue
+        ops = ln.split("\t")[2:]
+        ctx.stat("failing-lines")
+        if ff is not None:
+            law, text, idxs = ff
+            sig = (law, tuple(sorted(kind_of(ops[i]) for i in set(idxs))))
+            ctx.stat("law-failure:" + law)
+            if sig not in seen:
+                direct = {"kind": "property-fails", "input": {"line": ln}, "detail": oracle(ln, a), "no_input": False}
+                if ctx.match_finding(direct) is not None:
+                    seen.add(sig)       # already the canonical input of a listed finding
+                    ctx.violation("property-fails", {"line": ln}, oracle(ln, a))
+                elif reported >= max_report:
+                    ok = False          # unreported failures exist: never pass silently
+                else:
+                    seen.add(sig)
+
+                    def still(l2):
+                        x, y = both(l2)
+                        f2 = first_failure(l2, x)
+                        return f2 is not None and f2[0] == law and not y.startswith("bad-")
+                    try:
+                        line = minimise(ln, still, idxs)
+                    except Exception:
+                        line = ln
+                    a2, b2 = both(line)
+                    p2 = oracle(line, a2) or oracle(ln, a)
+                    if ctx.violation("property-fails", {"line": line}, f"{p2}; impl={a2!r} model={b2!r}"):
+                        ok = False
+                        reported += 1
+        if a != b:
+            ok = False
+            sig = ("disagree", tuple(sorted(set(kind_of(o) for o in ops))))
+            if sig in seen or reported >= max_report:
+                continue
+            seen.add(sig)
+            reported += 1
+
+            def still2(l2):
+                x, y = both(l2)
+                return x != y and not y.startswith("bad-")
+            try:
+                line = minimise(ln, still2)
+            except Exception:
+                line = ln
+            a2, b2 = both(line)
+            if oracle(line, a2) is None:
+                ctx.violation("model-impl-disagree", {"line": line, "correspondence": label},
+                              f"impl={a2!r} model={b2!r}; the property oracle found no failure on this input",
+                              no_input=True)
+            else:
+                ctx.violation("property-fails", {"line": line},
+                              f"{oracle(line, a2)}; impl={a2!r} model={b2!r} (model and implementation disagree)")
+    ctx.obligation(f"{label}: implementation = model on {len(lines)} generated lines", ok, "correspondence")
+    return res
+
+
+def keyfn(line):
+    f = line.split("\t")
+    return (f[1],) + tuple(f[2:])
+
+
 def run(ctx):
-    ctx.rule = "todo"
-    raise NotImplementedError
+    ctx.rule = ("pairs/triples of values around one boundary integer (0, ±2^k±d for k in 7..128) rendered in randomly "
+                "chosen numeric kinds (SmallInt/BigInt/Float/BigFloat/Float64/Float32/Int64..UInt8/UInt; float "
+                "neighbours one ulp apart; ±0, ±inf, NaN, subnormals), String/Char groups, and compound values "
+                "(lists, tuples, pairs, maps, records, sets, ranges, dates) evaluated from Elk source; "
+                "distinct = distinct operand tuple; non-trivial = every line (each evaluates 8 relations on every "
+                "ordered pair, the hash-equality pattern and operand integrity)")
+    ctx.prove("ElkVerif.Props.C18")
+    ctx.trusted += [
+        "64-bit build: Int64/UInt64/Float64 are inline values; the reference-typed variants of a 32-bit build are not modelled",
+        "Go primitives assumed exact on their domain: integer comparison, big.Int.Cmp, big.Float.Cmp after exact "
+        "SetInt/SetInt64/SetUint64/SetFloat64, IEEE comparison of float64/float32, float64(float32), math.Trunc; "
+        "each is exercised bit-for-bit by the correspondence run",
+        "xxhash64 is an uninterpreted function of the byte stream (Hash(v) = xxhash64(model bytes) is checked per sampled value)",
+        "symbol ids are in bijection with names (C26); object identity hashes (ObjectHash) never collide",
+    ]
+    ctx.assumptions += [
+        "representation invariants of the operands (a BigInt does not fit a SmallInt, fixed-width values in range, "
+        "chars are Unicode scalar values): the theorems are stated under `wf`",
+    ]
+    if ctx.replay:
+        lines = [json.load(open(ctx.replay))["input"]["line"]]
+        correspond(ctx, lines, "comparison/equality/hash tables")
+        return
+    rng = ctx.rng
+    lines = vlib.corpus_lines("C18")
+    n_num = ctx.n(12000, 600000)
+    for i in range(n_num):
+        ops = gen_num_group(rng, 3 if i % 2 else 2, ORDER_KINDS if i % 3 == 0 else None)
+        lines.append("num\trel\t" + "\t".join(ops))
+        for o in ops:
+            ctx.stat("kind:" + kind_of(o))
+    for i in range(ctx.n(1500, 40000)):
+        lines.append("num\trel\t" + "\t".join(gen_text_group(rng, 3 if i % 2 else 2)))
+    comp, undesc = gen_compound_lines(rng, ctx.n(500, 12000))
+    ctx.stat("compound-sources-not-evaluable", undesc)
+    lines += comp
+    # hash recipe: Hash(v) must be xxhash64 of the model's byte stream
+    atoms = sorted({o for l in lines for o in l.split("\t")[2:] if not o.startswith("x:") and not o.startswith("y:")})
+    rng.shuffle(atoms)
+    atoms = atoms[:ctx.n(4000, 100000)]
+    hb = vlib.run_model(["num\thashbytes\t" + a for a in atoms])
+    for a, h in zip(atoms, hb):
+        if h.startswith("ok ") and h != "ok identity":
+            lines.append("num\thashis\t" + a + "\t" + h[3:])
+    res = correspond(ctx, lines, "comparison/equality/hash tables")
+    # distribution of what was exercised
+    for ln, a, b in res:
+        f = ln.split("\t")
+        if f[1] != "rel" or not a.startswith("ok "):
+            continue
+        p = parse_rel(a, len(f) - 2)
+        if p is None:
+            continue
+        for row in p[0]:
+            for c in row:
+                ctx.stat("cmp:" + c[0])
+                ctx.stat("eq:" + c[6])
+        for v in p[2].values():
+            ctx.stat("hasheq:" + ("y" if v else "n"))
